@@ -223,7 +223,7 @@ func TestC04(t *testing.T) {
 			}
 		}
 		// 1. round trips: shortest, 17-25 digits, 30-60 digits, e / E / fixed notation
-		rapidLits("roundtrip", e.cfg.N(15000, 3000000), func(rt *rapid.T) []string {
+		rapidLits("roundtrip", e.cfg.N(12000, 3000000), func(rt *rapid.T) []string {
 			x := drawFloat(rt)
 			out := []string{strconv.FormatFloat(x, 'e', -1, 64), strconv.FormatFloat(x, 'E', -1, 64),
 				strconv.FormatFloat(x, 'e', rapid.IntRange(16, 25).Draw(rt, "d1"), 64), strconv.FormatFloat(x, 'e', rapid.IntRange(29, 60).Draw(rt, "d2"), 64)}
@@ -236,7 +236,7 @@ func TestC04(t *testing.T) {
 			return out
 		})
 		// 2. exact halfway points and their immediate neighbours
-		rapidLits("halfway", e.cfg.N(2500, 300000), func(rt *rapid.T) []string {
+		rapidLits("halfway", e.cfg.N(2000, 300000), func(rt *rapid.T) []string {
 			x := drawFloat(rt)
 			vs := halfwayVariants(midpointDecimal(x))
 			if f, ok := toFixed(vs[0]); ok {
@@ -247,7 +247,7 @@ func TestC04(t *testing.T) {
 		// 2b. halfway points whose deciding excess (or deficit) sits in the last of N significant
 		// digits, N around every mantissa-length limit of the multi-precision fallback (its
 		// digit buffer holds 800) and of the 19-digit fast paths
-		rapidLits("long-halfway", e.cfg.N(400, 60000), func(rt *rapid.T) []string {
+		rapidLits("long-halfway", e.cfg.N(280, 60000), func(rt *rapid.T) []string {
 			x := drawFloat(rt)
 			if rapid.IntRange(0, 3).Draw(rt, "int?") == 0 {
 				x = float64(uint64(1)<<53 + 2*uint64(rapid.IntRange(0, 1<<20).Draw(rt, "odd"))) // tie goes down to an even integer
